@@ -2,7 +2,7 @@
     Statements over the Issuance LTS (obtain, renew sync/async, ManageSync, CleanStorage, ARI
     update, ACME account registration; any number of threads; every schedule; every plan of error / cancel / panic faults). *)
 From Coq Require Import List Bool Arith Lia NArith.
-From CM Require Import Gen.Consts Issuance.Model Issuance.Proofs Issuance.Invariants Issuance.Refuted.
+From CM Require Import Gen.Consts Issuance.Model Issuance.Proofs Issuance.Invariants Issuance.Refuted Issuance.Final.
 Import ListNotations.
 Close Scope N_scope.
 Open Scope nat_scope.
@@ -89,6 +89,60 @@ Proof.
   do 2 eexists. split; [reflexivity|]. unfold thread_at; simpl. split; [reflexivity|]. split; [reflexivity|].
   repeat split; auto; discriminate.
 Qed.
+
+(** the Locker grants a free lock whatever the state of the caller's context (FileStorage consults
+    the context only while it waits): the acquisition step does not look at [canc]; the request is
+    recorded and inside the locked region afterwards *)
+Theorem C09_lock_granted_regardless_of_context : forall t th s b,
+  tpc th = PLockWait -> lks s (c_lk (cfg th)) = None ->
+  exists th' s' e, tstep t th s FNone b = Some (th', s', e) /\
+    locked (tpc th') = true /\ recd th' = true /\ lks s' (c_lk (cfg th)) = Some t /\ canc th' = canc th.
+Proof. exact lock_granted_regardless_of_context. Qed.
+Print Assumptions C09_lock_granted_regardless_of_context.
+
+(** ... and from any such state (the lock invariants hold, the holder's context may have ended at
+    the Lock gate): whatever fails afterwards, short of its own Unlock, when the request has
+    returned it holds no lock and has no record -- the clause the check evaluates for the fault
+    kind "context cancelled at the Lock gate, lock granted anyway" *)
+Theorem C09_cancelled_holder_releases : forall s0 t es s th,
+  I_lock s0 -> J_thread t s0 ->
+  runs (unlock_ok_for t) s0 es s -> thread_at s t th -> final_pc (tpc th) = true ->
+  recd th = false /\ forall l, lks (sh s) l <> Some t.
+Proof. exact cancelled_holder_releases. Qed.
+Print Assumptions C09_cancelled_holder_releases.
+
+(** instances on separate storages that use one lock name have different lock identities: a step
+    changes no entry of the lock table but the mover's own *)
+Theorem C09_step_touches_only_own_lock : forall s l s' e th,
+  step s l = Some (s', e) -> thread_at s (l_tid l) th ->
+  forall k, k <> c_lk (cfg th) -> lks (sh s') k = lks (sh s) k.
+Proof. exact step_touches_only_own_lock. Qed.
+Print Assumptions C09_step_touches_only_own_lock.
+
+(** CleanUpOwnLocks (unlock every recorded key) leaves nothing held -- every reachable state, every
+    fault plan, Unlock failures included *)
+Theorem C09_cleanup_releases_everything : forall cs st s, reachable cs st s -> forall k, cleanup_lks s k = None.
+Proof. exact cleanup_releases_everything. Qed.
+Print Assumptions C09_cleanup_releases_everything.
+
+(** soundness of the lock monitor S9 on the model: no Unlock made to fail and every request
+    returned => the quantities the monitor compares with zero (held, recorded) are zero *)
+Theorem C09_model_passes_lock_monitor : forall cs st es s,
+  runs unlock_ok (init_state cs st) es s ->
+  (forall t th, thread_at s t th -> final_pc (tpc th) = true) ->
+  (forall k, lks (sh s) k = None) /\ (forall t th, thread_at s t th -> recd th = false).
+Proof. exact model_passes_lock_monitor. Qed.
+Print Assumptions C09_model_passes_lock_monitor.
+
+(** an operation that is finished for good because its instance died: once the Locker's staleness
+    rule has freed what it held, nobody hangs -- along every continuation without Unlock failures
+    every state with an unfinished request has a fault-free step *)
+Theorem C09_no_hang_after_crash : forall cs st es0 s t es s',
+  runs unlock_ok (init_state cs st) es0 s -> runs unlock_ok (crash_stale s t) es s' ->
+  (exists u th, thread_at s' u th /\ final_pc (tpc th) = false) ->
+  exists l s'' e, l_fault l = FNone /\ step s' l = Some (s'', e).
+Proof. exact no_hang_after_crash. Qed.
+Print Assumptions C09_no_hang_after_crash.
 
 (** tie to the source (translator T, re-read from the working tree on every run): the five
     functions that take storage locks -- obtainCert, renewCert, updateARI, CleanStorage,
